@@ -37,6 +37,12 @@ def jobs(tier):
             for w in range(mx):
                 out.append((dict(base, name="c09-retire-max{0}min{1}-idle{2}".format(mx, mn, w),
                                  prefix=[("until", 1 + w, {"label": "Queue.get"})]), dict(full, depth=full["depth"] + 2)))
+        # a failing task whose callable has no __name__ (functools.partial): later tasks still run
+        ops = ["start", "enq0", "enq1", "await1", "stop"]
+        for k in (1, 2, 3):
+            base = {"max": mx, "min": mn, "tasks": ["raise_noname", "ret"], "clients": [ops],
+                    "props": ["exactly_once", "nodeadlock", "bounded", "results"], "window_at": k, "twin_prog": "progress"}
+            out.append((dict(base, name="c09-noname-max{0}min{1}-op{2}".format(mx, mn, k)), full))
         # two enqueuing clients, from the constructed pool
         base = {"max": mx, "min": mn, "tasks": ["ret", "ret"], "clients": [["start", "enq0", "await0"], ["enq1", "await1"]],
                 "props": ["exactly_once", "results", "bounded"], "window_at": 0, "twin_prog": "progress"}
